@@ -136,6 +136,7 @@ def main():
     if a.replay:
         sys.exit(do_replay(a.replay))
     seed = int(os.environ.get("VERIF_SEED", "0") or 0)
+    os.environ["PYVC_TIER"] = a.tier
     prop = PROPERTIES[pid]
     t0 = time.time()
     known = load_known()
